@@ -235,16 +235,17 @@ prop('C15',
      design_ref='DESIGN.md §5 C15')
 
 prop('C16',
-     modules=['LarkVerif.Shape', 'LarkVerif.Transform', 'LarkVerif.TransformEmbed', 'LarkVerif.TransformInPlace', 'LarkVerif.Props.C16'],
-     theorems=['Props.C16.embedded_eq_transform_after', 'Props.C16.nonrecursive_eq_recursive', 'Props.C16.inplace_eq_recursive', 'Props.C16.stack_machine_postorder', 'EmbedProto.applyPlan_rel', 'EmbedProto.buildListT_rel'],
+     modules=['LarkVerif.Shape', 'LarkVerif.Transform', 'LarkVerif.TransformEmbed', 'LarkVerif.TransformInPlace', 'LarkVerif.IterSubtrees', 'LarkVerif.Props.C16'],
+     theorems=['Props.C16.embedded_eq_transform_after', 'Props.C16.nonrecursive_eq_recursive', 'Props.C16.inplace_eq_recursive', 'Props.C16.stack_machine_postorder',
+               'Props.C16.iter_subtrees_children_first', 'Props.C16.iter_subtrees_complete', 'EmbedProto.applyPlan_rel', 'EmbedProto.buildListT_rel'],
      fingerprints=['lark/parse_tree_builder.py:ParseTreeBuilder.create_callback', 'lark/parsers/lalr_parser_state.py:ParserState.feed_token', 'lark/visitors.py:Transformer._transform_tree',
-                   'lark/visitors.py:Transformer_NonRecursive.transform', 'lark/visitors.py:Transformer_InPlace.transform'],
+                   'lark/visitors.py:Transformer_NonRecursive.transform', 'lark/visitors.py:Transformer_InPlace.transform', 'lark/tree.py:Tree.iter_subtrees'],
      rule='random feature-rich LALR grammars x maybe_placeholders/keep_all_tokens x a random pure transformer class (callbacks on a random subset of rule names, aliases, template names and named terminals; styles plain, '
           'v_args(inline=True), v_args(tree=True); callbacks are free constructors ("cb", name, children), so equal results under them imply equal results under every pure callback). Per sampled sentence: '
           'Lark(transformer=T).parse vs T.transform(Lark().parse) vs the Lean embedded chain buildListT and the Lean transform-after trV (both on the raw derivation of the real parser); Transformer, Transformer_NonRecursive, '
           'Transformer_InPlace, Transformer_InPlaceRecursive on deep copies of the parse tree: results, multiset of calls (once per node) and children-before-parents order, vs the Lean tr / runStack. '
           'Non-trivial = at least one callback applies; distinct by canonical hash. A fifth of the chosen callbacks return None. A third of the chosen terminal callbacks return None; in a third of the four-variant comparisons __default__ is overridden in a mixin the concrete class inherits from.',
-     not_proved=['inplace_eq_recursive assumes the walk processes a node after its child subtrees (observed on every call log: children-before-parents); iter_subtrees itself (queue walk with identity de-duplication) is not modelled; Transformer_InPlaceRecursive is, as a function of a proper tree, the recursion of Transformer and is compared on every case', 'known finding F8: callbacks on inlined (_) rules are excluded (hypothesis of the theorem)'],
+     not_proved=['inplace_eq_recursive assumes the walk processes a node after its child subtrees: proved for the mirror of iter_subtrees on proper trees (iter_subtrees_children_first, order compared with the real iter_subtrees on random trees) and observed on every call log; the identity de-duplication of iter_subtrees on DAGs (shared subtrees) is not modelled; Transformer_InPlaceRecursive is, as a function of a proper tree, the recursion of Transformer and is compared on every case', 'known finding F8: callbacks on inlined (_) rules are excluded (hypothesis of the theorem)'],
      assumptions=['callbacks are pure and total; __default__/__default_token__ at their defaults; Discard and meta arguments excepted as the property says'],
      level_text='Theorems: for every derivation (inlined rules not ?-rules) and arbitrary rule/token callbacks not attached to inlined rules, the embedded callback chain computes exactly Transformer.transform of the plain tree; '
                 'the post-order stack machine of Transformer_NonRecursive equals the recursive transformer for callbacks into any type. Both Lean functions run on the real parser\'s raw derivations / trees with free-constructor '
